@@ -1,3 +1,4 @@
+from vlib.runner import Obl
 from props.common import vault_obligations, krow_obligations, ktab_obligations, TRUSTED as _T
 
 PROPERTY = "C01"
@@ -14,3 +15,14 @@ ASSUMPTIONS = ["pre-states are run-length encodings with repeats >= 1 whose maps
 TRUSTED = _T
 
 OBLIGATIONS = vault_obligations(1) + krow_obligations(1) + ktab_obligations(1, 60, 'nr')
+
+
+# A-level: the real Row/Cell classes (string-valued repeat accessors, Cell.clone) on the lxml model
+for _fn in ['arow_set', 'arow_insert', 'arow_delete']:
+    _secs = {'arow_set': 255, 'arow_insert': 235, 'arow_delete': 35, 'arow_get_clone': 40}[_fn]
+    OBLIGATIONS.append(Obl(name=_fn, module="h_arow", func=_fn, shadow=True, timeout=_secs * 4, replay="r_h_arow:" + _fn, weight=_secs,
+                           tier="quick" if _secs < 100 else "thorough",
+                           bounds="real Row of two cell-runs with repeats in 1..3, positions <= 7, inserted repeat <= 3, probe <= 10",
+                           encodes=["src/odfdo/row.py:Row (all methods used, incl. repeated accessors)", "src/odfdo/cell.py:Cell.__init__,repeated,_set_repeated,clone,get_value,set_value",
+                                    "src/odfdo/element.py:Element.insert,delete,index,clone,_get_element_idx2,elements_repeated_sequence", "src/odfdo/element_cached.py (all)"],
+                           stubs=["/verif/shadow/lxml (symdom)"]))
